@@ -76,7 +76,7 @@ fn generate(cli: &Cli) -> Vec<Case> {
     }
     // the first Keep Alive is half written when discovery completes (every cut of the frame)
     for k in 1..10usize {
-        for e in [EchoKind::Prompt, EchoKind::DelayedPermille(500)] {
+        for e in [EchoKind::Prompt, EchoKind::DelayedPermille(500), EchoKind::Never, EchoKind::WrongId] {
             out.push(Case { class: String::new(), pre_login: Duration::ZERO, ci_delay: Duration::ZERO, lat: [Duration::ZERO; 3], echo: e, unsolicited: false, ka_write_stall: Some(k), seed: rng.u64() });
         }
     }
